@@ -85,7 +85,7 @@ structure PrecTables where
   binary : List (Operator × Int)
   other : List (Tok × Int)        -- `::`, `[` and the keyword operators
   unary : List Operator
-  deriving Repr, Inhabited
+  deriving Repr, Inhabited, DecidableEq
 
 /-- the tables as they stand in /repo HEAD -/
 def PrecTables.code : PrecTables where
@@ -98,7 +98,9 @@ def lookupOp (l : List (Operator × Int)) (o : Operator) : Option Int := (l.find
 def lookupTok (l : List (Tok × Int)) (t : Tok) : Option Int := (l.find? (·.1 == t)).map (·.2)
 
 /-- ASCII lower-casing; the only non-ASCII characters whose `to_lowercase` contains an ASCII letter are U+212A
-(KELVIN SIGN → `k`) and U+0130 (→ `i` + U+0307): both are mapped as Rust does, so comparisons with ASCII words agree -/
+(KELVIN SIGN → `k`) and U+0130 (→ `i` + U+0307): both are mapped as Rust does, so comparisons with ASCII words agree.
+`EXTRACT(part FROM …)` puts the lower-cased `part` into a call name: for a part with non-ASCII letters the name differs
+from Rust's `to_lowercase` (an external Unicode table); the drivers answer `skip` on such inputs. -/
 def lowerChars (s : List Char) : List Char :=
   s.flatMap (fun c =>
     if 'A' ≤ c ∧ c ≤ 'Z' then [Char.ofNat (c.toNat + 32)]
